@@ -318,7 +318,12 @@ MIN_LEN = {'refname': 1, 'unit': 1, 'xstrtype': 1, 'refname_dis': 1}
 def make_payload(hz, kind, s):
     D = sys.modules['hszinc.datatypes']
     if kind == 'xstrtype':
-        return D.XStr(s, 'pay"load')
+        try:
+            return D.XStr(s, 'pay"load')
+        except ValueError:
+            # the type names hex / b64 demand an encoded payload: XStr(type, 'pay"load') is not a value (outside the domain)
+            from .symx import core as _core
+            raise _core.PathAbort()
     if kind == 'refname_dis':
         return D.Ref(s, 'a "b"')
     if kind == 'str':
